@@ -1,4 +1,5 @@
 import HopModel.Model.Replay
+import HopModel.Model.ReplayU64
 import HopModel.Spec.Replay
 import HopModel.Driver.Util
 /-
@@ -15,19 +16,24 @@ open Replay
 
 def b2s (b : Bool) : String := if b then "1" else "0"
 
-def step (w : Win) : List String → Win × String
-  | ["new"] => (Replay.init, "ok")
-  | ["acc", q] => match q.toNat? with
-    | some q => (acceptU w q, b2s (checkU w q))
+/-- the model the driver runs is the machine-level transcription (`Model/ReplayU64.lean`: `uint64`
+words, shifts and masks as in the Go code), which `C14_machine_accept_iff` ties to the Spec -/
+def toU (s : String) : Option UInt64 := s.toNat?.bind fun n => if n < 2 ^ 64 then some (UInt64.ofNat n) else none
+
+def step (w : ReplayU64.WinU) : List String → ReplayU64.WinU × String
+  | ["new"] => (ReplayU64.init, "ok")
+  | ["acc", q] => match toU q with
+    | some q => (ReplayU64.accept w q, b2s (ReplayU64.check w q))
     | none => (w, "bad-op")
-  | ["mark", q] => match q.toNat? with
-    | some q => (markOnlyU w q, "ok")
+  | ["mark", q] => match toU q with
+    | some q => (ReplayU64.mark w q, "ok")
     | none => (w, "bad-op")
-  | ["chk", q] => match q.toNat? with
-    | some q => (w, b2s (checkU w q))
+  | ["chk", q] => match toU q with
+    | some q => (w, b2s (ReplayU64.check w q))
     | none => (w, "bad-op")
   | ["probe", lo, n] => match lo.toNat?, n.toNat? with
-    | some lo, some n => (w, String.ofList ((List.range n).map fun i => if checkU w (lo + i) then '1' else '0'))
+    | some lo, some n =>
+      (w, String.ofList ((List.range n).map fun i => if ReplayU64.check w (UInt64.ofNat (lo + i)) then '1' else '0'))
     | _, _ => (w, "bad-op")
   | _ => (w, "bad-op")
 
@@ -52,6 +58,6 @@ def specStep (acc : List Nat) : List String → List Nat × String
 
 def main (args : List String) : IO Unit :=
   if args.contains "--spec" then loopLines specStep []
-  else loopLines step Replay.init
+  else loopLines step ReplayU64.init
 
 end Driver.C14
